@@ -1,12 +1,20 @@
 (* Props/C16.v — the audited surface for property C16 (eval() and the time-series helpers).
-   Statements only; every proof is `exact <lemma>`; Print Assumptions under each.
+   Statements only; every proof is `exact <lemma>`; Print Assumptions at the end.
 
-   Models: Funcs/Funcs.v (fsic/functions.py: shift/lag/lead/diff/dlog, value level and array-object level),
-           Funcs/EvalIdx.v (containers.py: _resolve_expression_indexes and eval()).
-   Kept findings mirrored by the models: #15 (every bracket is rewritten once a backtick occurs), #26 (diff(x,0) = x). *)
+   Models: Funcs/Funcs.v     fsic/functions.py: shift/lag/lead/diff/dlog, value level and array-object level;
+           Funcs/FuncsConv.v the same with NumPy's cast of fill_value to the array dtype made explicit;
+           Funcs/EvalIdx.v   containers.py: _resolve_expression_indexes (the regular expression, the callback, int()/str())
+                             and eval() (rewriting only with a backtick, namespace assembly, NameError -> AttributeError);
+           Locate/Locate.v   (property C10's model) for the tie to label indexing.
+   Kept findings mirrored by the models, each with a `_refuted` witness and the guarded statements:
+     #15  every bracket is rewritten once a backtick occurs           C16_positional_rewritten_refuted, ..._in_expression_refuted
+     #26  diff(x, 0) = x                                               C16_diff_zero_formula_refuted
+     NEW  labels with colon / closing bracket / edge backtick          C16_label_with_colon_refuted, C16_label_with_bracket_or_edge_backtick_refuted
+     NEW  module globals / Python builtins visible to the expression   C16_undefined_name_leak_refuted
+     NEW  integer arrays: the default fill NaN raises                  C16_int_array_nan_fill_refuted *)
 From Coq Require Import ZArith List Bool String Ascii.
 Import ListNotations.
-Require Import PyBase Funcs FuncsFacts FuncsExamples FuncsFacts2 FuncsExamples2 FuncsConv FuncsConvFacts EvalIdx EvalIdxFacts EvalIdxExamples EvalIdxWhole EvalIdxWholeExamples EvalIdxLocate EvalIdxLocateExamples EvalIdxProgram EvalIdxProgramExamples EvalIdxProgram2.
+Require Import PyBase Funcs FuncsFacts FuncsExamples FuncsFacts2 FuncsExamples2 FuncsConv FuncsConvFacts EvalIdx EvalIdxFacts EvalIdxExamples EvalIdxWhole EvalIdxWholeExamples EvalIdxLocate EvalIdxLocateExamples EvalIdxProgram EvalIdxProgramExamples EvalIdxProgram2 EvalIdxLocateSpans.
 Require Fsic.Locate.Locate Fsic.Locate.LocateFacts.
 Open Scope string_scope.
 Open Scope Z_scope.
@@ -582,6 +590,23 @@ Section C16_label_indexing.
   Proof. exact (program_eval_text gl ct sp prog ts tail). Qed.
 End C16_label_indexing.
 
+(* the concrete spans on which the correspondence check compares the rewriter with fsic (lists / unique pandas indexes: SpanSeq;
+   NumPy arrays: SpanArr) ARE spans of the C10 model seen through the bridge: what K validates is the function the theorems
+   above speak about (tr_label maps str / int labels to the C10 model's labels) *)
+Theorem C16_checked_list_span_is_C10_span
+        (gl : list Locate.label -> Locate.label -> outcome Locate.loc) (ct : list Locate.label -> Locate.label -> bool)
+        (ls : list label) (s : string) :
+  eval_text_span (SpanSeq ls) s
+  = eval_text (c10_has ct (Locate.SList (map tr_label ls))) (c10_locate gl (Locate.SList (map tr_label ls))) s.
+Proof. exact (eval_text_seq_is_c10 gl ct ls s). Qed.
+
+Theorem C16_checked_numpy_span_is_C10_span
+        (gl : list Locate.label -> Locate.label -> outcome Locate.loc) (ct : list Locate.label -> Locate.label -> bool)
+        (ls : list label) (s : string) :
+  eval_text_span (SpanArr ls PyInt) s
+  = eval_text (c10_has ct (Locate.SArr (map tr_label ls))) (c10_locate gl (Locate.SArr (map tr_label ls))) s.
+Proof. exact (eval_text_arr_is_c10 gl ct ls s). Qed.
+
 (* eval('X[`a`:`b`:s]') selects exactly the elements obj['X', a:b:s] returns (inclusive label slice).  Hypotheses: those of
    C10's C10_eval_slice_agrees (lookup meeting C10's specification and answering built-in ints, distinct labels, both ends
    present or open, s > 0), the label texts have no backtick/colon, and each text names its label (as str, else through int()) *)
@@ -808,3 +833,5 @@ Print Assumptions C16_diff_zero_ignores_fill.
 Print Assumptions C16_helpers_with_cast_never_modify_existing_arrays.
 Print Assumptions C16_int_array_nan_fill_refuted.
 Print Assumptions C16_program_eval_text.
+Print Assumptions C16_checked_list_span_is_C10_span.
+Print Assumptions C16_checked_numpy_span_is_C10_span.
